@@ -71,7 +71,9 @@ type txCase struct {
 	extra []string // extra options
 }
 
-func (c txCase) isFile() bool { return strings.HasPrefix(c.src, "file") || strings.HasPrefix(c.src, "F") }
+func (c txCase) isFile() bool {
+	return strings.HasPrefix(c.src, "file") || strings.HasPrefix(c.src, "F")
+}
 
 type txResult struct {
 	got    [][]byte
